@@ -149,15 +149,16 @@ PROF.no_bare_pause = True
 
 
 def has_bare_pause(case):
-    """Selector of known finding C20/bare-task-pause: some task is paused while the
-    innermost open subsystem region of its thread is the task body itself."""
+    """Selector of known finding C20-bare-task-pause: some task is paused or resumed
+    while the innermost open subsystem region of its thread is the task body itself
+    (the task type changes but the subsystem, the mux select, does not)."""
     try:
         m = R.Model(case, enable_all=False)
     except R.Reject:
         return False
     for (ct, _p, _k, sidx, e) in m.merged_events():
         th = m.by_stream[sidx]
-        if e[0] in ("VTp", "6Tp"):
+        if e[0] in ("VTp", "6Tp", "VTr", "6Tr"):
             ss = th.q.get((e[0][0], "subsystem"))
             if ss and ss[-1] == R.L(R.L_TASK_BODY[e[0][0]]):
                 return True
